@@ -174,7 +174,8 @@ def gen_C20_counter(tier, rng):
         B, mx = p["B"], p["max"]
         M = 2 ** (64 if alg == "blake2b" else 32)
         lows = [M - 1, M - 2, M - B + 1, M - B, M - B - 1, M - 2 * B + 1, M - 2 * B, M - 2 * B - 1, M - 3 * B, M - 3 * B - 1,
-                M - 4 * B, M // 2, 0, 1, B, 12345]
+                M - 4 * B, M // 2, M // 2 - 1, M // 2 - B, M // 2 + 1, M // 4, 2 ** 16 - 1, 2 ** 31 if M > 2 ** 32 else 2 ** 15, 2 ** 32 - B if M > 2 ** 32 else 2 ** 8 - 1,
+                0, 1, B, 12345]
         highs = [0, 1, M - 2, M - 1]
         datalens = [0, 1, B - 1, B, B + 1, 2 * B, 2 * B + 1, 3 * B, 3 * B + 1]
         for t0 in lows:
